@@ -2,7 +2,7 @@
 from __future__ import annotations
 
 import ast
-from typing import List, Optional
+from typing import List, Optional, Set
 
 from vlib import match, source, sub
 from vlib.cfg import CFG, own_calls
@@ -59,6 +59,10 @@ def run(ctx) -> None:
              "made in the same loop iteration (never a cached or shared scope that would accumulate other components' variables)")
     ctx.rule("C03.R2-naming-agreement", "replica component names and replica references use the same format and index; "
                                         "indices run over range(count); variables['replica'] is the index")
+    ctx.rule("C03.R10-replica-rewrite-covers-the-component", "compile_component_replica applies its reference translation to the whole component "
+             "(replace_strings over the copy of the component itself), or - field by field - to at least references, command, variables, "
+             "executors AND override: the per-platform override mirrors every other field and is layered back on top when the "
+             "replicated description is queried, so a copy whose override was not rewritten consumes from the unreplicated producer")
     ctx.rule("C03.R9-aggregate-expands-every-occurrence", "in compile_component_aggregate each copy is listed once per reference (no duplicate "
              "in the translation lists), every occurrence of a reference is expanded with the path that follows THAT occurrence (the "
              "replacement is computed from the match it replaces), and the loop over the two spellings of a reference does not stop "
@@ -241,6 +245,97 @@ def run(ctx) -> None:
     # ---------------- R2 -------------------------------------------------------------------------------
     params = [a.arg for a in rep.args.args]
     ctx.require(len(params) >= 4, "unexpected signature of compile_component_replica")
+    # ---- R9 (path that follows an aggregated reference): its segments accept every character the left anchor treats as part of a
+    # name (apart from the separators '/' and '#'): a file called my-file.txt is a file
+    import re._parser as _sre
+    agg_fn = m.func("FlowIR.compile_component_aggregate")
+    n_sfx = 0
+    for c in source.calls_in(agg_fn, include_nested=True):
+        if call_name(c) == "re.compile" and c.args and isinstance(c.args[0], ast.BinOp) and isinstance(c.args[0].op, ast.Mod) \
+                and isinstance(c.args[0].left, ast.Constant) and isinstance(c.args[0].left.value, str) and "(?:/" in c.args[0].left.value:
+            text = c.args[0].left.value.replace("%s", "X")
+            try:
+                tree = _sre.parse(text)
+            except Exception:
+                continue
+            behind: Set[str] = set()
+            seg: Set[str] = set()
+
+            def chars_of(items) -> Set[str]:
+                out: Set[str] = set()
+                for (op, av) in items:
+                    if str(op) == "LITERAL":
+                        out.add(chr(av))
+                    elif str(op) == "CATEGORY" and "WORD" in str(av):
+                        out.add("\\w")
+                    elif str(op) == "RANGE":
+                        out |= {chr(x) for x in range(av[0], av[1] + 1)}
+                return out
+
+            # segments: an IN class that follows a literal '/'
+            def find_segments(items):
+                prev_slash = False
+                for (op, av) in items:
+                    o = str(op)
+                    if o == "LITERAL" and chr(av) == "/":
+                        prev_slash = True
+                        continue
+                    if o in ("MAX_REPEAT", "MIN_REPEAT"):
+                        inner = av[2]
+                        if prev_slash and len(inner) == 1 and str(inner[0][0]) == "IN":
+                            seg.update(chars_of(inner[0][1]))
+                        else:
+                            find_segments(inner)
+                    elif o == "SUBPATTERN":
+                        find_segments(av[3])
+                    elif o == "BRANCH":
+                        for b in av[1]:
+                            find_segments(b)
+                    elif o == "ASSERT_NOT" and av[0] == -1:
+                        for (op2, av2) in av[1]:
+                            if str(op2) == "IN":
+                                behind.update(chars_of(av2))
+                    prev_slash = False
+            find_segments(tree)
+            if not seg:
+                continue
+            n_sfx += 1
+            needed = behind - {"/", "#"}
+            missing = sorted(needed - seg)
+            ctx.ob("C03.R9-aggregate-expands-every-occurrence", c, not missing,
+                   "the path repeated with every copy accepts every character a name may contain (%s)" % "".join(sorted(seg)) if not missing else
+                   "the path that follows an aggregated reference is matched with the class [%s] although the same pattern treats %s as part of a "
+                   "name: 'A:ref/my-file.txt' is cut at the hyphen and expands to 'stage0.A0:ref/my stage0.A1:ref/my-file.txt' - only the last "
+                   "copy gets the file the consumer asked for" % ("".join(sorted(seg)), ", ".join(repr(x) for x in missing)),
+                   construct="compile_component_aggregate: path class after an aggregated reference")
+    ctx.floor("C03.R9-aggregate-expands-every-occurrence", n_sfx, 1, "patterns that repeat the path following an aggregated reference")
+
+    # ---- R10: what the translation is applied to
+    REQUIRED = {"references", "command", "variables", "executors", "override"}
+    comp_param = [p_ for p_ in params if p_ not in ("cls", "self")][0]
+    comp_names = {comp_param} | set(match.locals_where(rep, lambda v: isinstance(v, ast.Call) and (call_name(v) or "").split(".")[-1] in ("deep_copy", "deepcopy", "copy")
+                                                       and v.args and isinstance(v.args[0], ast.Name) and v.args[0].id == comp_param))
+    rs_calls = [c for c in source.calls_in(rep, include_nested=False) if last_attr(c) == "replace_strings" and c.args]
+    ctx.floor("C03.R10-replica-rewrite-covers-the-component", len(rs_calls), 1, "replace_strings calls in compile_component_replica")
+    whole = [c for c in rs_calls if isinstance(c.args[0], ast.Name) and c.args[0].id in comp_names]
+    fields: Set[str] = set()
+    for c in rs_calls:
+        a0 = c.args[0]
+        if isinstance(a0, ast.Subscript) and isinstance(a0.value, ast.Name) and a0.value.id in comp_names:
+            if isinstance(a0.slice, ast.Constant):
+                fields.add(a0.slice.value)
+            elif isinstance(a0.slice, ast.Name):
+                for lp in source.walk_own(rep):
+                    if isinstance(lp, ast.For) and isinstance(lp.target, ast.Name) and lp.target.id == a0.slice.id and isinstance(lp.iter, (ast.Tuple, ast.List)):
+                        fields |= {e.value for e in lp.iter.elts if isinstance(e, ast.Constant)}
+    ok10 = bool(whole) or REQUIRED <= fields
+    ctx.ob("C03.R10-replica-rewrite-covers-the-component", rs_calls[0] if rs_calls else rep, ok10,
+           "the translation is applied to the whole component" if whole else
+           ("the translation is applied to the fields %s, which include every field that can hold a reference" % sorted(fields)) if ok10 else
+           "the reference translation of a copy is applied only to the fields %s, not to %s: the platform override of 'references' / "
+           "'command.arguments' keeps naming the unreplicated producer, and get_component_configuration layers that override back on top - on "
+           "that platform all N copies consume 'stage0.Simulate/..', a component that no longer exists" % (sorted(fields), sorted(REQUIRED - fields)),
+           construct="compile_component_replica: replace_strings covers the component")
     p_replica = params[2]
     names = _fmt_assign(rep, lambda t: isinstance(t, ast.Subscript) and isinstance(t.slice, ast.Constant) and t.slice.value == "name")
     prods = _fmt_assign(cref, lambda t: isinstance(t, ast.Name) and t.id == "producer")
